@@ -61,6 +61,17 @@ def check_maps(c):
             want[:, k] += bits[:, k * q + b] << b
     res.check(np.array_equal(I2, want), 'qtt_to_tt.value', c, 'bit strings map to the wrong multi-indices')
     res.check(np.array_equal(teneva.ind_tt_to_qtt(I2, n), bits), 'compose.bits', c, 'tt_to_qtt(qtt_to_tt(bits)) != bits')
+    # small batches, the one-row batch included: a batch stays a batch (2-D in, 2-D out), as arrays and as lists of lists
+    for mrows in (1, 2, 3):
+        res.ev()
+        sel = [(7 * j + 1) % len(pts) for j in range(mrows)]
+        for form in ('array', 'list'):
+            Pi, Ei = pts[sel], E[sel]
+            Bm = teneva.ind_tt_to_qtt(Pi if form == 'array' else Pi.tolist(), n)
+            Im = teneva.ind_qtt_to_tt(Ei if form == 'array' else Ei.tolist(), q)
+            res.check(np.shape(Bm) == (mrows, d * q) and np.array_equal(Bm, Ei) and np.shape(Im) == (mrows, d) and np.array_equal(Im, Pi),
+                      'small_batch', dict(c, rows=mrows, form=form),
+                      lambda: 'a batch of %d multi-indices gave shapes %s / %s' % (mrows, np.shape(Bm), np.shape(Im)))
     # singles (1-D list and array input, 1-D output)
     step = max(1, len(pts) // 64)
     for i in pts[::step]:
